@@ -6,4 +6,19 @@ TEXT = {
   "level_text": "Generated-input search: for every shipped wire protocol, messages drawn from the protocol's documented field set are packed and unpacked (field-by-field equality incl. ordered multimap metadata), streams of 1-6 frames are decoded under generated read chunkings with a byte-exact consumed counter, and reported sizes are compared between a used and a fresh protocol instance. Exploration, not proof: absence of a counterexample within the generated cases.",
   "level_note": "Trusts: rapid's generators, the in-memory reader/writer, third-party gzip/md5/thrift/protobuf/gjson libraries. Field domains follow the documented limits (DESIGN.md C05 table).",
  },
+ "C01": {
+  "technique": "property-based generated concurrent programs with self-authenticating messages and a pure-function handler oracle (rapid)",
+  "level_text": "Generated concurrent programs (sessions x worker goroutines x Call/AsyncCall/Push in both directions x carrier type per codec x payload length x filter pipe x read chunking) run against the real session/peer/router code over an in-memory transport. Every message authenticates itself (token in body and metadata + payload checksum); handlers re-read their argument after yielding; callers compare result and reply metadata with the pure function of their own argument. Exploration of scheduler-chosen interleavings, not an enumeration.",
+  "level_note": "Trusts the in-memory transport and rapid. Interleavings inside pack/unpack are sampled by load, not forced.",
+ },
+ "C11": {
+  "technique": "property-based round-trip with aliasing probe + garbage/other-shape decoding between canaries (rapid)",
+  "level_text": "Per codec, typed values from the supported domain are marshalled and unmarshalled (deep equality incl. element order; nil/empty identified; NaN by class), the decoder's input buffer is then overwritten to expose values that alias it, and arbitrary / mutated / other-shape inputs are decoded into every destination type between canary words with panics turned into failures.",
+  "level_note": "Value domains are bounded by what encoding/json, encoding/xml, gogo/protobuf and thrift accept; struct shapes are a fixed library of types, not arbitrary reflect.StructOf types.",
+ },
+ "C12": {
+  "technique": "property-based inversion over generated pipes/payloads + exhaustive single-byte corruption enumeration (rapid + enumeration)",
+  "level_text": "Pipes over the registered filters (length 0..255, repeats) x payload classes are packed and unpacked (exact inversion; receiver rebuilds the pipe from a raw frame); pipes naming an unregistered id must be refused by Append and by Unpack; for pipes containing md5 every byte position of the packed payload is corrupted (3 masks quick; all 255 masks for payloads <=64 B in the thorough tier, a complete enumeration for those payloads). The end-to-end 'reply travels through the caller's pipe' part is checked with sessions in the same run group.",
+  "level_note": "compress/gzip and crypto/md5 are trusted; corruption model = one byte xor-ed.",
+ },
 }
